@@ -5,6 +5,7 @@ package main
 
 import (
 	"fmt"
+	"go/constant"
 	"go/types"
 	"strings"
 
@@ -88,6 +89,58 @@ func runC08(cx *Ctx, r *Report) {
 				_, g := refund[0].fact(true, "(‹RequestContext›.BatchState != 1)")
 				ok = g
 			}
+		}
+		// … and whenever the batch is not completed: the test that guards the settlement is false
+		// only for a completed batch (a plan that also skips, say, a paused context leaves the
+		// requests of its open batch unexpired for good - the list is looked at once)
+		if ok {
+			decided, converse := false, true
+			var site ssa.Instruction = refund[0].ev.Site
+			for f := refund[0].ev.Fr; f != nil && !decided; f = f.Parent {
+				for _, df := range dominatingFacts(site.Block()) {
+					as, okA := refund[0].w.constAlts(f, df.Cond, 0)
+					if !okA {
+						continue
+					}
+					isGuard := false
+					for _, a := range as {
+						if a.val.Kind() != constant.Bool || constant.BoolVal(a.val) != df.Holds {
+							continue
+						}
+						for k, ft := range a.facts {
+							if ft.Holds && strings.HasSuffix(k, ".BatchState != 1)") {
+								isGuard = true
+							}
+						}
+					}
+					if !isGuard {
+						continue
+					}
+					decided = true
+					for _, a := range as {
+						if a.val.Kind() != constant.Bool || constant.BoolVal(a.val) == df.Holds {
+							continue
+						}
+						done := false
+						for k, ft := range a.facts {
+							if !ft.Holds && strings.HasSuffix(ft.Text, ".BatchState != 1)") || ft.Holds && strings.HasSuffix(k, ".BatchState == 1)") {
+								done = true
+							}
+						}
+						if !done {
+							converse = false
+						}
+					}
+				}
+				if f.Call != nil {
+					site = f.Call
+				} else if f.ViaSite != nil {
+					site = f.ViaSite
+				} else {
+					break
+				}
+			}
+			r.check(decided && converse, "expiry-body-complete", "EndBlock", pos, "the settlement of an expired batch is skipped only when the batch is already completed", "the test guarding the settlement of an expired batch can be false for a batch that is not completed: its unanswered requests are then never expired (no slash, no refund, active-index entries left behind) - the expired-batch list is looked at only once")
 		}
 		r.check(ok, "expiry-body", "EndBlock", pos, "for every expired request the end blocker must-executes slash, refund and the active-index delete, and only while the batch is not completed", "the expiry body does not must-execute slash + refund + active-index delete under BatchState ≠ COMPLETED")
 	}
@@ -278,7 +331,29 @@ func (cx *Ctx) c08Callback(r *Report) {
 		// `var err error; if len(outputs) < threshold { err = … }; cb(…, err)`
 		args := sites[0].Common().Args
 		ok := false
-		if phi, isPhi := args[len(args)-1].(*ssa.Phi); isPhi && len(phi.Edges) == 2 {
+		errArg := args[len(args)-1]
+		// the error handed over may be worked out by a helper that returns (outputs, err):
+		// the rule is applied to what that helper returns
+		for d := 0; d < 3; d++ {
+			ex, isEx := errArg.(*ssa.Extract)
+			if !isEx {
+				break
+			}
+			c, isCall := ex.Tuple.(*ssa.Call)
+			if !isCall || c.Common().IsInvoke() {
+				break
+			}
+			g := c.Common().StaticCallee()
+			if g == nil || g.Blocks == nil || !isIrismodFunc(g) {
+				break
+			}
+			rets := returnsOf(g)
+			if len(rets) != 1 || ex.Index >= len(rets[0].Results) {
+				break
+			}
+			errArg = rets[0].Results[ex.Index]
+		}
+		if phi, isPhi := errArg.(*ssa.Phi); isPhi && len(phi.Edges) == 2 {
 			for i, e := range phi.Edges {
 				other := phi.Edges[1-i]
 				if !isNilConst(other) || i >= len(phi.Block().Preds) {
@@ -371,6 +446,17 @@ func (cx *Ctx) c08Callback(r *Report) {
 					if bo.Op.String() == "==" && (strings.HasSuffix(x, ".BatchResponseCount") && strings.HasSuffix(y, ".BatchRequestCount")) {
 						ok = true
 					}
+				}
+			}
+			if ci, isIns := c.Site.(ssa.Instruction); isIns && !ok {
+				// … or the test was made by a helper that worked out a plan for the batch
+				// (plan.settleBatch = BatchState != COMPLETED): what the plan's flag implies
+				fs := newWalker(cx).FactsAt(&Frame{Fn: c.Caller}, ci)
+				if _, has := hasFact(fs, true, ".BatchState != "); has {
+					ok = true
+				}
+				if _, has := hasFact(fs, true, ".BatchResponseCount", " == ", ".BatchRequestCount"); has {
+					ok = true
 				}
 			}
 			where := "answer path"
